@@ -4,6 +4,7 @@
 From Coq Require Import List NArith ZArith Bool QArith Qcanon.
 From Okv Require Import Base.Maps Base.Dec Model.Amount Model.Book Model.Intern Model.Named Model.NamedSpec.
 From Okv Require Import Proofs.InternProofs Proofs.NamedProofs Proofs.NamedCanonical.
+From Okv Require Import Model.Syntax Model.Lower Proofs.AliasLines.
 Import ListNotations.
 Open Scope N_scope.
 
@@ -83,3 +84,35 @@ Theorem C12_conflicts_rejected :
      process_named_entry st (NAccount name [a]) = NErr (NInvalidAccount ConflictingAlias)).
 Proof. exact conflicts_rejected. Qed.
 Print Assumptions C12_conflicts_rejected.
+
+(* On the written block (Model/Syntax.v, lowered by Model/Lower.v low_entry): an `alias` line
+   whose name is already canonical, or already an alias of another name, rejects the whole
+   `commodity` / `account` declaration wherever it stands in the block - whatever notes,
+   comments, format lines or further alias lines come before or after it (ds1, ds2 are
+   arbitrary).  `names_record tbl s a` (Proofs/AliasLines.v) is the record the store `s` has for
+   the written name `a` under the numbering `tbl` of written names. *)
+Theorem C12_refused_alias_line_rejects_block :
+  (forall ta tc name ds1 a ds2 ta' tc' e st,
+     low_entry ta tc (SCommodity name (ds1 ++ CDAlias a :: ds2)) = (ta', tc', e) ->
+     (names_record tc' (n_com st) a = Some RCanonical \/
+      exists c0, names_record tc' (n_com st) a = Some (RAlias c0) /\ find_name tc' name 0 <> Some c0) ->
+     exists err, process_named_entry st e = NErr (NInvalidCommodity err)) /\
+  (forall ta tc name ds1 a ds2 ta' tc' e st,
+     low_entry ta tc (SAccount name (ds1 ++ ADAlias a :: ds2)) = (ta', tc', e) ->
+     (names_record ta' (n_acc st) a = Some RCanonical \/
+      exists c0, names_record ta' (n_acc st) a = Some (RAlias c0) /\ find_name ta' name 0 <> Some c0) ->
+     exists err, process_named_entry st e = NErr (NInvalidAccount err)).
+Proof. exact refused_alias_line_rejects_block. Qed.
+Print Assumptions C12_refused_alias_line_rejects_block.
+
+(* lines of a block that are not alias lines do not change which aliases it declares, nor their
+   order; every alias line is among them *)
+Theorem C12_alias_lines :
+  (forall ds1 a ds2, In a (account_aliases (ds1 ++ ADAlias a :: ds2))) /\
+  (forall ds1 a ds2, In a (commodity_aliases (ds1 ++ CDAlias a :: ds2))) /\
+  (forall ds1 d ds2, (forall a, d <> ADAlias a) ->
+     account_aliases (ds1 ++ d :: ds2) = account_aliases (ds1 ++ ds2)) /\
+  (forall ds1 d ds2, (forall a, d <> CDAlias a) ->
+     commodity_aliases (ds1 ++ d :: ds2) = commodity_aliases (ds1 ++ ds2)).
+Proof. exact alias_lines. Qed.
+Print Assumptions C12_alias_lines.
